@@ -166,16 +166,25 @@ harnesses! {
         }
     }
 
-    /// a zero factor gives an exactly zero product (all five bodies)
+    /// a zero factor gives an exactly zero product (all five bodies; two obligations)
     #[kani::solver(kissat)] #[kani::stub(crate::arithmetic::fma, fma_fixed)] #[kani::stub(crate::arithmetic::fast_two_sum, s_fts)]
-    fn mul_zero_factor() {
-        let x = any_valid(); let y = any_valid(); let f = any_f64!();
-        vassume!(in450(x.hi) && in450(y.hi) && in450(f));
-        vassume!(x.hi == 0.0 || (y.hi == 0.0 && f == 0.0));
+    fn mul_zero_factor_f64() {
+        let x = any_valid(); let f = any_f64!();
+        vassume!(in450(x.hi) && in450(f));
+        vassume!(x.hi == 0.0 || f == 0.0);
         let z = |r: TwoFloat| r.hi == 0.0 && r.lo == 0.0;
-        vassert!(z(x * y) && z(x * f) && z(f * x), "zero factor gives a zero product");
-        let mut t = x; t *= y; let mut u = x; u *= f;
-        vassert!(z(t) && z(u), "zero factor gives a zero product (*=)");
+        let mut u = x; u *= f;
+        vassert!(z(x * f) && z(f * x) && z(u), "zero factor gives a zero product (TwoFloat * f64, f64 * TwoFloat, *=)");
+        vcover!(x.hi != 0.0, "non-zero times zero reachable");
+    }
+    #[kani::solver(kissat)] #[kani::stub(crate::arithmetic::fma, fma_fixed)] #[kani::stub(crate::arithmetic::fast_two_sum, s_fts)]
+    fn mul_zero_factor_tf() {
+        let x = any_valid(); let y = any_valid();
+        vassume!(in450(x.hi) && in450(y.hi));
+        vassume!(x.hi == 0.0 || y.hi == 0.0);
+        let z = |r: TwoFloat| r.hi == 0.0 && r.lo == 0.0;
+        let mut t = x; t *= y;
+        vassert!(z(x * y) && z(t), "zero factor gives a zero product (TwoFloat * TwoFloat, *=)");
         vcover!(x.hi == 0.0 && y.hi != 0.0, "zero times non-zero reachable");
     }
     /// multiplying by +-1 is exact (value equality; the sign of a zero low word may differ)
